@@ -355,6 +355,15 @@ class Types:
             if not inner.startswith(('std::', 'Oomd::')) and '<' in inner:
                 inner = 'std::' + inner
             return self.ctype(inner)
+        m = re.match(r'^decltype\((.*)::(\w+)\)$', t)
+        if m:
+            cls, fld = m.group(1), m.group(2)
+            for q, rec in self.index.records.items():
+                if q.endswith(cls) or q.endswith('::' + cls):
+                    for c in kids(rec):
+                        if c.get('kind') == 'FieldDecl' and c.get('name') == fld:
+                            return self.ctype_of(c['type'])
+            raise Unsupported('cannot resolve %s' % t)
         m = re.match(r'^(?:std::)?__decay_and_strip<(.*)>::__type$', t)
         if m:
             inner = strip_cvref(m.group(1))
